@@ -107,6 +107,10 @@ def stepOp (c : C) (op : String) : List C :=
   match op.splitOn ":" with
   | ["init"] | ["chg"] => if c.quitCount > 0 then [c] else [onEvent c]
   | ["sig", n] => if c.quitCount > 0 then [c] else [onSignal c n.toNat!]
+  -- a change and a signal in ONE action: the signals are dealt with first (quit, or passed on), then the change takes its usual course
+  | ["mix", n] => if c.quitCount > 0 then [c] else
+      let c' := onSignal c n.toNat!
+      if c'.quitCount > 0 then [c'] else [onEvent c']
   | ["y"] => settleC 300 c
   | ["a", ms] => advanceC 64 (c.x.st.now + ms.toNat!) c
   | _ => [c]
